@@ -20,6 +20,8 @@ import Flax.Proofs.NnxLoopReject
 import Flax.Proofs.NnxLoopGrad
 import Flax.Proofs.NnxLoopScanTop
 import Flax.Proofs.NnxLoopVmapConv
+import Flax.Proofs.NnxLoopVmapIff
+import Flax.Proofs.NnxLoopScanComplete
 import Flax.Proofs.LiftLoopAxes
 import Flax.Proofs.LiftLoopArr
 import Flax.Props.C14
@@ -212,6 +214,53 @@ theorem vmap_no_rejection_before_calls {α : Type} [Inhabited α] (store : Store
   injection e3 with e3
   exact ⟨pure, sl, hp, hsl, by simpa [e1] using e2, e3.symm⟩
 
+/-- **`vmap_rejects_iff` (acceptance form).**  For every function, store, arguments, axes, `axis_size`, verdict: the model
+of `nnx.vmap` returns **iff** `VmapAccepts` (Proofs/NnxLoopVmapIff.lean):
+no `Carry` and no bare `StateAxes` in the axes specifications (jax.vmap's own TypeError); a positive unbatchedness verdict;
+`in_axes` matching the arguments; every occurrence of every Variable given an axis (`No axis found` otherwise) and all
+occurrences of one Variable the same axis (`Inconsistent aliasing` otherwise); every mapped Variable and array argument
+of one size `n` along its axis, `axis_size = n` if given and something mapped if not (jax's size complaints otherwise);
+and the per-index reference `vmapSpecN n` defined — the function total on the per-Variable slices at every index and
+leaving every Variable a value, `out_axes` matching the results (arity, an axis for every Variable of a fresh node, no
+`StateAxes` on an array), `jnp.stack` accepting the per-index values.  So `nnx.vmap` never rejects a call on which the
+reference is defined and sizes / verdict are right, and whenever it accepts it returns the reference's result
+(`vmap_eq_per_index`).  `huni`: what a single trace guarantees (all indices return equally many results, of the same
+kinds, fresh nodes with the same Variables and distinct paths). -/
+theorem vmap_accepts_iff {α : Type} [Inhabited α] {inAxes outAxes : AxesSpec} {axisSize : Option Nat} {verdict : Bool}
+    {body : Body α} {args : List (Arg α)} {store : Store α}
+    (hwf : ∀ ps, inAxes.expand args.length = .ok ps → WFArgs (ps.zip args))
+    (huni : ∀ ps n calls, inAxes.expand args.length = .ok ps →
+      mapX (vmapCall body store (ps.zip args)) (List.range n) = .ok calls → TraceUniform calls) :
+    (∃ res, nnxVmap inAxes outAxes axisSize verdict body args store = .ok res) ↔
+      VmapAccepts inAxes outAxes axisSize verdict body args store :=
+  nnxVmap_accepts_iff hwf huni
+
+/-- **`vmap_rejects_iff`.**  The model of `nnx.vmap` raises **iff** one of the conditions of `VmapAccepts` fails. -/
+theorem vmap_rejects_iff {α : Type} [Inhabited α] {inAxes outAxes : AxesSpec} {axisSize : Option Nat} {verdict : Bool}
+    {body : Body α} {args : List (Arg α)} {store : Store α}
+    (hwf : ∀ ps, inAxes.expand args.length = .ok ps → WFArgs (ps.zip args))
+    (huni : ∀ ps n calls, inAxes.expand args.length = .ok ps →
+      mapX (vmapCall body store (ps.zip args)) (List.range n) = .ok calls → TraceUniform calls) :
+    (∃ e, nnxVmap inAxes outAxes axisSize verdict body args store = .error e) ↔
+      ¬ VmapAccepts inAxes outAxes axisSize verdict body args store :=
+  nnxVmap_rejects_iff hwf huni
+
+/-- the converse on its own, with the hypotheses spelled out: a defined reference is never rejected -/
+theorem vmap_no_spurious_rejection {α : Type} [Inhabited α] {inAxes outAxes : AxesSpec} {axisSize : Option Nat}
+    {body : Body α} {args : List (Arg α)} {store : Store α} {ps : List Prefix} {npF : NodePrefixes} {n : Nat}
+    {res : Store α × List (Out α)}
+    (hok : (inAxes.isBareStateAxes || inAxes.hasCarry || outAxes.hasCarry) = false)
+    (hps : inAxes.expand args.length = .ok ps) (hal : allPrefixes (ps.zip args) [] = .ok npF)
+    (hcons : consistent npF = true) (hwf : WFArgs (ps.zip args))
+    (hsz1 : ∀ ep ∈ ownedAll (ps.zip args) [], ∀ k, ep.2.at ep.1 = .ok (.axis k) →
+      ∃ v, store.lookup ep.1.id = some v ∧ Flax.LiftLoop.dimAt k v = .ok n)
+    (hsz2 : ∀ pa ∈ arrArgs (ps.zip args), ∀ k, pa.1 = .ax (.axis k) → Flax.LiftLoop.dimAt k pa.2 = .ok n)
+    (hsz3 : ∀ m, axisSize = some m → m = n) (hsz4 : axisSize = none → HasMapped (ps.zip args) [])
+    (hspec : vmapSpecN n outAxes body (ps.zip args) store = .ok res)
+    (huni : ∀ calls, mapX (vmapCall body store (ps.zip args)) (List.range n) = .ok calls → TraceUniform calls) :
+    ∃ res', nnxVmap inAxes outAxes axisSize true body args store = .ok res' :=
+  nnxVmap_complete hok hps hal hcons hwf hsz1 hsz2 hsz3 hsz4 hspec huni
+
 /-- state side of the above on its own: the caller's Variables end as `collectVal axis [per-index values]`, written
 in first-occurrence order; Variables not reachable from the arguments are untouched (`writeAll` only sets) -/
 theorem vmap_state_is_stack_of_updates {α : Type} [Inhabited α] (store0 : Store α) (pas : List (Prefix × Arg α))
@@ -277,6 +326,18 @@ example : exView (nnxVmap exIn (.uniform (.ax (.axis 0))) none true exBody exArg
 example : exView (vmapSpecN 2 (.uniform (.ax (.axis 0))) exBody
     ([Prefix.sa [(.ofType "Param", .axis 0), (.everything, .bcast)], .ax (.axis 0)].zip exArgs) exStore)
     = some ([(0, exVec [15, 27]), (1, exScalar 4)], [some (exVec [15, 27])]) := by decide
+
+/-! both sides of `vmap_rejects_iff` are inhabited: the example call above is accepted; the same call is rejected with a
+negative unbatchedness verdict, with a size mismatch (`axis_size = 3` against leaves of size 2), with `Carry` in
+`in_axes`, and with an `out_axes` tuple of the wrong length -/
+example : errOf (nnxVmap exIn (.uniform (.ax (.axis 0))) none false exBody exArgs exStore)
+    = some .unbatchedOutExpected := by decide
+example : errOf (nnxVmap exIn (.uniform (.ax (.axis 0))) (some 3) true exBody exArgs exStore)
+    = some (.lax .leadingAxisMismatch) := by decide
+example : errOf (nnxVmap (.perArg [.sa [(.everything, .carry)], .ax (.axis 0)]) (.uniform (.ax (.axis 0))) none true
+    exBody exArgs exStore) = some .invalidAxes := by decide
+example : errOf (nnxVmap exIn (.perArg [.ax (.axis 0), .ax (.axis 0)]) none true exBody exArgs exStore)
+    = some .prefixArity := by decide
 
 /-! ## 4. `nnx.scan`: the set-up checks -/
 
@@ -525,6 +586,61 @@ theorem scan_loop_of_nnx_scan {α : Type} [Inhabited α] {inAxes outAxes : AxesS
       insertCarry cout ca fin.1 outs = .ok res.2 ∧
       ∃ dims, scanDims si.pure = .ok dims ∧ Flax.LiftLoop.jaxLength length dims = .ok n :=
   nnxScan_loop h hwf
+
+/-! ### towards `scan_rejects_iff`: no rejection before the loop, and every call is made -/
+
+/-- **No rejection before the loop, and the calls are made.**  If every occurrence of every Variable gets an axis and all
+occurrences of one Variable agree, the store holds every Variable, array arguments carry an int / `None` / `Carry`
+prefix, every scanned Variable and array has size `n` along its axis, and `length` is `n` if given (something is scanned
+if not): then `_scan_split_in` accepts, lax.scan's length check finds `n`, every index `i < n` can be sliced, and the
+first processed iteration — and, by `scan_iteration_sees`, every later one, whatever carry the loop has reached — calls
+the traced function on the Python loop's values.
+
+What can still make `nnx.scan` reject, and is proved only in the soundness direction (`scan_eq_loop_nnx`): the set-up
+checks of `scan_out_axes_rejected` / `Carry` placement (`scanSetup`, exact by definition); inside the loop the traced
+function failing, `_check_carry_same_references` (`scan_carry_refs_checked`, exact), lax.scan's carry-structure check (a
+carried Variable or the array carry changing shape), `out_axes` arity / a Variable of a fresh node without axis; after
+the loop `jnp.stack` refusing per-iteration values of different shapes.  Each makes `scanSpecN` undefined as well, except
+the carry-structure check, which the reference loop does not have (it is stricter than the Python loop). -/
+theorem scan_no_rejection_before_loop {α : Type} [Inhabited α] (store : Store α) (pas : List (Prefix × Arg α))
+    (npF : NodePrefixes) (n : Nat) (length : Option Nat) (hwf : WFArgs pas)
+    (hal : allPrefixes pas [] = .ok npF) (hcons : consistent npF = true)
+    (hst : ∀ ep ∈ ownedAll pas [], (store.lookup ep.1.id).isSome)
+    (hsz : ∀ ep ∈ ownedAll pas [], ∀ k, ep.2.at ep.1 = .ok (.axis k) →
+      ∃ v, store.lookup ep.1.id = some v ∧ Flax.LiftLoop.dimAt k v = .ok n)
+    (harr : ∀ pa ∈ arrArgs pas, ScanArrOK n pa)
+    (hl1 : ∀ m, length = some m → m = n) (hl2 : length = none → HasMapped pas []) :
+    ∃ si dims, scanSplitIn store pas [] [] = .ok si ∧ scanDims si.pure = .ok dims ∧
+      Flax.LiftLoop.jaxLength length dims = .ok n ∧
+      ∀ i, i < n → ∀ carr, ∃ xs parts ins arrs, mapX (spureAt i) si.pure = .ok xs ∧
+        mapX (scanSplitArgOut store) si.pure = .ok parts ∧
+        mapX (scanEntryIn store store i) (ownedAll pas []) = .ok ins ∧
+        mapX (scanArrIn carr i) (arrArgs pas) = .ok arrs ∧
+        scanMergeIn xs ((parts.filterMap id).map (·.2)) si.bcastDeque si.bcastArrays carr [] = .ok (ins, arrs) := by
+  obtain ⟨si, hsi⟩ := scanSplitIn_complete store n pas [] [] npF hal hcons hst hsz harr
+  have harr2 : ∀ pa ∈ arrArgs pas, ∀ k, pa.1 = .ax (.axis k) → Flax.LiftLoop.dimAt k pa.2 = .ok n := by
+    intro pa hpa k hk
+    rcases harr pa hpa with ⟨k', hk', hd⟩ | hb | hc
+    · rw [hk] at hk'; injection hk' with hk'; injection hk' with hk'; subst hk'; exact hd
+    · rw [hk] at hb; cases hb
+    · rw [hk] at hc; cases hc
+  obtain ⟨⟨dims, hdims, hall⟩, hslice⟩ := scanDims_complete store n pas [] [] si hsi hsz harr2
+  have hjl : Flax.LiftLoop.jaxLength length dims = .ok n := by
+    apply jaxLength_of_all hall hl1
+    intro hnone hde
+    subst hde
+    rcases hl2 hnone with ⟨ep, hep, k, hk⟩ | ⟨pa, hpa, k, hk⟩
+    · obtain ⟨_, d, _, _, hd⟩ := (scanDims_mem store pas [] [] si [] hsi hdims).1 ep hep k hk
+      cases hd
+    · obtain ⟨d, _, hd⟩ := (scanDims_mem store pas [] [] si [] hsi hdims).2 pa hpa k hk
+      cases hd
+  obtain ⟨⟨parts, hp1, _⟩, _⟩ := scanSplitIn_init store pas [] [] si hsi
+  refine ⟨si, dims, hsi, hdims, hjl, ?_⟩
+  intro i hi carr
+  obtain ⟨xs, hxs⟩ := hslice i hi
+  obtain ⟨ins, arrs, h1, h2, h3⟩ :=
+    Flax.NnxLoop.scan_iteration_sees store store i carr pas [] [] si xs parts [] hwf hsi hxs hp1 rfl
+  exact ⟨xs, parts, ins, arrs, hxs, hp1, h1, h2, by simpa using h3⟩
 
 /-- broadcast state is constant: the step function of the reference loop reads `None` Variables from the original
 store only, whatever the previous iterations wrote (this is what the code does: `broadcast_deque_out =
